@@ -22,7 +22,33 @@ let n_of_int (i : int) : n = if i <= 0 then N0 else Npos (pos_of_int i)
 let rec nat_of_int (i : int) : nat = if i <= 0 then O else S (nat_of_int (i - 1))
 let rec int_of_nat (x : nat) : int = match x with O -> 0 | S y -> 1 + int_of_nat y
 
-let z_of_sx = function A s -> z_of_int (int_of_string s) | _ -> failwith "z_of_sx"
+(* arbitrary precision on the wire: b<binary digits> / b-<binary digits> (constructors only, no arithmetic) *)
+let rec bits_of_pos_buf (b : Buffer.t) (p : positive) : unit =
+  match p with
+  | XH -> Buffer.add_char b '1'
+  | XO q -> bits_of_pos_buf b q; Buffer.add_char b '0'
+  | XI q -> bits_of_pos_buf b q; Buffer.add_char b '1'
+let big_atom (neg : bool) (p : positive) : Sx.t =
+  let b = Buffer.create 80 in
+  Buffer.add_string b (if neg then "b-" else "b"); bits_of_pos_buf b p; A (Buffer.contents b)
+let z_of_bits (s : Stdlib.String.t) : z =
+  let neg = Stdlib.String.length s >= 2 && Stdlib.String.get s 1 = '-' in
+  let start = if neg then 2 else 1 in
+  let acc = ref None in
+  Stdlib.String.iteri (fun i c ->
+    if i >= start then
+      match !acc, c with
+      | None, '0' -> ()
+      | None, '1' -> acc := Some XH
+      | Some p, '0' -> acc := Some (XO p)
+      | Some p, '1' -> acc := Some (XI p)
+      | _ -> failwith "z_of_bits") s;
+  (match !acc with None -> Z0 | Some p -> if neg then Zneg p else Zpos p)
+let is_bits (s : Stdlib.String.t) = Stdlib.String.length s >= 2 && Stdlib.String.get s 0 = 'b' && (let c = Stdlib.String.get s 1 in c = '0' || c = '1' || c = '-')
+let z_of_sx = function
+  | A s when is_bits s -> z_of_bits s
+  | A s -> z_of_int (int_of_string s)
+  | _ -> failwith "z_of_sx"
 let n_of_sx = function A s -> n_of_int (int_of_string s) | _ -> failwith "n_of_sx"
 let nat_of_sx = function A s -> nat_of_int (int_of_string s) | _ -> failwith "nat_of_sx"
 let int_of_sx = function A s -> int_of_string s | _ -> failwith "int_of_sx"
@@ -32,11 +58,11 @@ let str_of_sx x = list_of_sx n_of_sx x
 let opt_of_sx f = function A "none" -> None | L [A "some"; x] -> Some (f x) | _ -> failwith "opt_of_sx"
 
 let sx_of_int i = A (string_of_int i)
-let sx_of_pos p = match int_of_pos p with Some v -> A (string_of_int v) | None -> A "BIG"
+let sx_of_pos p = match int_of_pos p with Some v -> A (string_of_int v) | None -> big_atom false p
 let sx_of_z = function
   | Z0 -> A "0"
   | Zpos p -> sx_of_pos p
-  | Zneg p -> (match int_of_pos p with Some v -> A (string_of_int (- v)) | None -> A "-BIG")
+  | Zneg p -> (match int_of_pos p with Some v -> A (string_of_int (- v)) | None -> big_atom true p)
 let sx_of_n = function N0 -> A "0" | Npos p -> sx_of_pos p
 let sx_of_nat x = A (string_of_int (int_of_nat x))
 let sx_of_bool b = A (if b then "true" else "false")
